@@ -156,6 +156,18 @@ CLAIMS['C07'] = dict(
         'permuted maps and start-position perturbations, not proved.',
    design='3/C07', note=TB + '; pool timeouts are exit 2')
 
+CLAIMS['C12'] = dict(
+   technique='Lean 4 proof (range/refusal invariants of fuel-bounded draw maps over Q for every fuel and draw stream; trigonometric/exp-log range lemmas over R with Mathlib) + scripted correspondence + grid search incl. extreme quantiles',
+   text='32 theorems over EpsieModel/Domain.lean: C12_bounded_in_bounds(_discrete), C12_bounded_eigen_tolerance(_draws,_value), C12_outside_refuses(_discrete,_eigen), '
+        'C12_inside_never_refuses, C12_discrete_integer, C12_integer_step_near_draw, C12_nonsuccessive_moves(_jump,_bounded: all draw streams), '
+        'C12_angular_range(_real), C12_angular_jump_range_partial, C12_pyMod_cast, C12_vmf_w_range, C12_vmf_formula_agrees, C12_clip_range, '
+        'C12_vmf_log1p_arg_partial, C12_rotation_keeps_unit_sphere(_partial), C12_rotation_maps_pole, C12_spherical_ranges(_model_partial), '
+        'C12_solid_angle_jump_ranges_partial, C12_no_numpy_nan_in_range_partial, C12_pole_start_in_range_partial, C12_birth_support, C12_birth_lognormal_model. '
+        'Partial where marked: IEEE effects (wrap returning exactly 2 pi, arccos/log rounding) enter as explicit hypotheses about the recorded numpy values; '
+        'comparisons, floor/ceil/round/int are exact in the real code, so the bounded/discrete theorems describe its actual decisions. Real jump()/birth run '
+        'with scripted draws (grid + extremes z=+-8.3, +-5e-324, 0; u=0, 2^-53, 1-2^-53), boundaries, cell edges, poles, scales 1e-12..1e+12 widths.',
+   design='3/C12', note=TB + '; numpy range guarantees of arccos/arctan2/clip trusted; one recorded finding (bounded-eigenvector-corner-stall)')
+
 NOT_YET = {}
 
 def main():
